@@ -241,6 +241,7 @@ func growCase(c *ev.Case) {
 						case rng.Chance(1, 4): // two directed halves; both inside the window
 							g.AddEdge(labels[o.b], labels[o.a])
 							g.AddEdge(labels[o.a], labels[o.b])
+							c.Add("cg_edges_added_as_two_directed_halves", 1)
 							c.Logf("stage %d: AddEdge(%d,%d); AddEdge(%d,%d)", stage, labels[o.b], labels[o.a], labels[o.a], labels[o.b])
 						default:
 							g.AddUndirectedEdge(labels[o.a], labels[o.b])
@@ -343,6 +344,13 @@ func bigCliqueCase(c *ev.Case) {
 	if c.Thorough() && rng.Chance(1, 3) {
 		target = rng.Pick(1025, 2000, 4100)
 	}
+	unionCliques(c, target, false, "cl-big", "cb_")
+}
+
+// unionCliques: a disjoint union of small graphs with at least (exact: exactly)
+// target vertices; pfx is the signature prefix, cn the counter prefix.
+func unionCliques(c *ev.Case, target int, exact bool, pfx, cn string) {
+	rng := c.Rng
 	type comp struct {
 		n    int
 		adj  []uint32
@@ -355,6 +363,9 @@ func bigCliqueCase(c *ev.Case) {
 		hi := 8
 		if rng.Chance(1, 12) {
 			hi = 13
+		}
+		if exact && hi > target-total {
+			hi = target - total
 		}
 		n, adj, _ := genGraph(rng, 1, hi)
 		fam := map[uint32]bool{}
@@ -409,10 +420,20 @@ func bigCliqueCase(c *ev.Case) {
 	desc := func() string {
 		return fmt.Sprintf("disjoint union of %d graphs of 1..13 vertices, %d vertices in all, %d maximal cliques", len(comps), total, nExpected)
 	}
-	c.Max("cb_max_vertices", int64(total))
+	c.Max(cn+"max_vertices", int64(total))
 	for _, th := range []int{64, 256, 1024, 4096} {
 		if total > th {
-			c.Add(fmt.Sprintf("cb_graphs_with_more_than_%d_vertices", th), 1)
+			c.Add(fmt.Sprintf("%sgraphs_with_more_than_%d_vertices", cn, th), 1)
+		}
+	}
+	if exact {
+		for _, th := range []int{32, 63, 64} {
+			if total == th {
+				c.Add(fmt.Sprintf("%sgraphs_with_exactly_%d_vertices", cn, th), 1)
+			}
+		}
+		if total > 32 && total <= 64 {
+			c.Add(cn+"graphs_with_33_to_64_vertices", 1)
 		}
 	}
 	for call := 0; call < 2; call++ {
@@ -420,11 +441,11 @@ func bigCliqueCase(c *ev.Case) {
 		if !c.Guard("GetMaximalCliques", func() { got = g.GetMaximalCliques() }) {
 			return
 		}
-		c.Add("cb_enumerations", 1)
+		c.Add(cn+"enumerations", 1)
 		seen := make(map[[2]int]bool, len(got)) // (component, mask)
 		for _, cl := range got {
 			if len(cl) == 0 {
-				c.Failf("cl-big/empty-clique", "an empty clique is returned for a graph with %d vertices ; %s", total, desc())
+				c.Failf(pfx+"/empty-clique", "an empty clique is returned for a graph with %d vertices ; %s", total, desc())
 				return
 			}
 			ci := -1
@@ -432,26 +453,26 @@ func bigCliqueCase(c *ev.Case) {
 			for _, v := range cl {
 				w, ok := where[v]
 				if !ok {
-					c.Failf("cl-big/foreign-vertex", "returned clique %v contains %v which is not a vertex ; %s", cl, v, desc())
+					c.Failf(pfx+"/foreign-vertex", "returned clique %v contains %v which is not a vertex ; %s", cl, v, desc())
 					return
 				}
 				if ci >= 0 && w[0] != ci {
-					c.Failf("cl-big/not-a-clique", "returned clique %v joins vertices %v and %v of two different components (no edge between them) ; %s", cl, cl[0], v, desc())
+					c.Failf(pfx+"/not-a-clique", "returned clique %v joins vertices %v and %v of two different components (no edge between them) ; %s", cl, cl[0], v, desc())
 					return
 				}
 				ci = w[0]
 				if m>>uint(w[1])&1 == 1 {
-					c.Failf("cl-big/vertex-repeated", "returned clique %v lists vertex %v twice ; %s", cl, v, desc())
+					c.Failf(pfx+"/vertex-repeated", "returned clique %v lists vertex %v twice ; %s", cl, v, desc())
 					return
 				}
 				m |= 1 << uint(w[1])
 			}
 			if !comps[ci].fam[m] {
-				c.Failf("cl-big/not-a-maximal-clique", "returned clique %v (vertices %s of component %d: %s) is not a maximal clique ; %s", cl, fmtMask(m), ci, fmtGraph(comps[ci].n, comps[ci].adj), desc())
+				c.Failf(pfx+"/not-a-maximal-clique", "returned clique %v (vertices %s of component %d: %s) is not a maximal clique ; %s", cl, fmtMask(m), ci, fmtGraph(comps[ci].n, comps[ci].adj), desc())
 				return
 			}
 			if seen[[2]int{ci, int(m)}] {
-				c.Failf("cl-big/duplicate", "maximal clique %v is returned more than once (%d returned, %d exist) ; %s", cl, len(got), nExpected, desc())
+				c.Failf(pfx+"/duplicate", "maximal clique %v is returned more than once (%d returned, %d exist) ; %s", cl, len(got), nExpected, desc())
 				return
 			}
 			seen[[2]int{ci, int(m)}] = true
@@ -466,13 +487,13 @@ func bigCliqueCase(c *ev.Case) {
 								cl = append(cl, label(ci, i))
 							}
 						}
-						c.Failf("cl-big/missing", "maximal clique %v is not returned (%d returned, %d exist) ; %s", cl, len(seen), nExpected, desc())
+						c.Failf(pfx+"/missing", "maximal clique %v is not returned (%d returned, %d exist) ; %s", cl, len(seen), nExpected, desc())
 						return
 					}
 				}
 			}
 		}
-		c.Add("cb_cliques_compared", int64(nExpected))
+		c.Add(cn+"cliques_compared", int64(nExpected))
 	}
 	h := ev.Mix('U', uint64(total))
 	for _, cp := range comps {
